@@ -141,6 +141,25 @@ PROPS = {
         "fired whenever the window is open; C01's containment invariants stay "
         "on.",
     },
+    "C15": {
+        "flavours": ["asan"],
+        "runs": {"quick": 2500, "thorough": 80000},
+        "rule": "one case = cgroup tree with file contents in the kernel's "
+        "grammar over the full value range (0, 1, 4095, 4096, 2^31+-1, "
+        "2^32+-1, 2^40, 2^58, `max`, both PSI formats, shuffled memory.stat "
+        "keys with extra keys, several io devices), device/coefficient "
+        "configuration, 2-10 ticks editing every number, removing, creating "
+        "and re-creating cgroups, readdir with and without d_type; "
+        "non-trivial = at least one cgroup snapshot compared; distinct = "
+        "distinct event-log hash (the log contains every reported value)",
+        "level_text": "seeded exploration; a probe plugin queries every "
+        "public accessor of the real CgroupContext twice per phase in a "
+        "shuffled order, in prerun and run, plus the system context; oracle = "
+        "reference function of the world model (raw values exact, derived "
+        "formulas and temporal recurrences with the tolerances of DESIGN.md "
+        "Appendix B), stability within a tick, fresh identity/history for "
+        "re-created cgroups.",
+    },
     "C02": {
         "flavours": ["asan"],
         "runs": {"quick": 4000, "thorough": 150000},
